@@ -157,7 +157,7 @@ static int roundtrip(econf_file *kf, char d, char c, const char *sig)
 }
 
 /* ------------------------------------------------------------------ mode 0 */
-static const char *C07_START = "# c1\nx=\"q # s\" # tc\nw=1 # t2\n[A]\n# c2\n# c3\ny=1\n  c\nz=\" q \"\n";
+static const char *C07_START = "# c1\nx=\"q # s\" # tc\nw=1 # t2\nv=\"r;s\"\n[A]\n# c2\n# c3\ny=1\n  c\nz=\" q \"\n";   /* v: quoted because of the OTHER comment character */
 static econf_file *c07_replay(const bfs_hist *h)
 {
   econf_file *kf = NULL; econf_err rc; e2_model m; memset(&m, 0, sizeof m);
